@@ -605,6 +605,39 @@ func detectRenames(ref map[string]*refPkg, cs *curSyms) *renameSet {
 			m, a  string
 			score float64
 		}
+		addedByName := map[string][]string{}
+		for _, a := range added {
+			_, _, n := splitFuncKey(a)
+			addedByName[n] = append(addedByName[n], a)
+		}
+		deepFeat := func(a string) []string {
+			set := map[string]bool{}
+			var add func(k string, depth int)
+			seen := map[string]bool{}
+			add = func(k string, depth int) {
+				if seen[k] || cp.Funcs[k] == nil {
+					return
+				}
+				seen[k] = true
+				for _, ft := range cp.Funcs[k].Feat {
+					if strings.HasPrefix(ft, "c:"+p+".") {
+						n := ft[strings.LastIndex(ft, ".")+1:]
+						if hs := addedByName[n]; len(hs) == 1 && hs[0] != a && depth > 0 {
+							add(hs[0], depth-1)
+							continue
+						}
+					}
+					set[ft] = true
+				}
+			}
+			add(a, 2)
+			var out []string
+			for k := range set {
+				out = append(out, k)
+			}
+			sort.Strings(out)
+			return out
+		}
 		var pairs []pair
 		for _, m := range missing {
 			mrecv, mptr, _ := splitFuncKey(m)
@@ -616,7 +649,13 @@ func detectRenames(ref map[string]*refPkg, cs *curSyms) *renameSet {
 				if mapTypeNames(cp.Funcs[a].Sig, typeRen) != rp.Funcs[m].Sig {
 					continue
 				}
-				pairs = append(pairs, pair{m, a, jaccard(rp.Funcs[m].Feat, cp.Funcs[a].Feat)})
+				sc := jaccard(rp.Funcs[m].Feat, cp.Funcs[a].Feat)
+				// renamed and split into phases at once: compare with the body the function has together
+				// with the functions it calls that the reference does not know either
+				if d := jaccard(rp.Funcs[m].Feat, deepFeat(a)); d > sc {
+					sc = d
+				}
+				pairs = append(pairs, pair{m, a, sc})
 			}
 		}
 		sort.SliceStable(pairs, func(i, j int) bool { return pairs[i].score > pairs[j].score })
